@@ -6,6 +6,7 @@ use std::hash::{Hash, Hasher};
 use std::ops::{Index, Range};
 
 use similar::algorithms::DiffHook;
+use similar::DiffableStr as _;
 use similar::{DiffOp, DiffTag};
 
 // ---------------------------------------------------------------------------
@@ -684,5 +685,106 @@ impl PartialEq<u32> for Tol {
     #[inline]
     fn eq(&self, other: &u32) -> bool {
         (self.0 as i64 - *other as i64).abs() <= 1
+    }
+}
+
+/// Generic counting item: `PartialEq` counts calls (and advances the virtual clock); `Hash`,
+/// `Ord` delegate to the wrapped value, so the hashing behaviour is that of the plain type.
+#[derive(Debug, Clone, Eq, PartialOrd, Ord)]
+pub struct CountingKey<T>(pub T);
+
+impl<T: PartialEq> PartialEq for CountingKey<T> {
+    #[inline]
+    fn eq(&self, other: &Self) -> bool {
+        CMP_COUNT.with(|c| c.set(c.get() + 1));
+        self.0 == other.0
+    }
+}
+
+impl<T: Hash> Hash for CountingKey<T> {
+    fn hash<H: Hasher>(&self, state: &mut H) {
+        self.0.hash(state)
+    }
+}
+
+// ---------------------------------------------------------------------------
+// a user-defined text type with a weak (but legal) hash
+
+/// `str` newtype whose `Hash` only feeds the LENGTH: equal strings hash equally (legal), but
+/// all strings of one length collide.  Implements `DiffableStr` by delegating to `str`.
+#[repr(transparent)]
+#[derive(PartialEq, Eq, PartialOrd, Ord, Debug)]
+pub struct WeakStr(str);
+
+impl WeakStr {
+    pub fn new(s: &str) -> &WeakStr {
+        // SAFETY: WeakStr is a repr(transparent) wrapper around str
+        unsafe { &*(s as *const str as *const WeakStr) }
+    }
+    pub fn as_inner(&self) -> &str {
+        &self.0
+    }
+}
+
+impl Hash for WeakStr {
+    fn hash<H: Hasher>(&self, state: &mut H) {
+        self.0.len().hash(state)
+    }
+}
+
+#[derive(Debug, Clone)]
+pub struct WeakString(String);
+
+impl std::borrow::Borrow<WeakStr> for WeakString {
+    fn borrow(&self) -> &WeakStr {
+        WeakStr::new(&self.0)
+    }
+}
+
+impl ToOwned for WeakStr {
+    type Owned = WeakString;
+    fn to_owned(&self) -> WeakString {
+        WeakString(self.0.to_string())
+    }
+}
+
+impl similar::DiffableStr for WeakStr {
+    fn tokenize_lines(&self) -> Vec<&Self> {
+        self.0.tokenize_lines().into_iter().map(WeakStr::new).collect()
+    }
+    fn tokenize_lines_and_newlines(&self) -> Vec<&Self> {
+        self.0.tokenize_lines_and_newlines().into_iter().map(WeakStr::new).collect()
+    }
+    fn tokenize_words(&self) -> Vec<&Self> {
+        self.0.tokenize_words().into_iter().map(WeakStr::new).collect()
+    }
+    fn tokenize_chars(&self) -> Vec<&Self> {
+        self.0.tokenize_chars().into_iter().map(WeakStr::new).collect()
+    }
+    #[cfg(feature = "unicode")]
+    fn tokenize_unicode_words(&self) -> Vec<&Self> {
+        self.0.tokenize_unicode_words().into_iter().map(WeakStr::new).collect()
+    }
+    #[cfg(feature = "unicode")]
+    fn tokenize_graphemes(&self) -> Vec<&Self> {
+        self.0.tokenize_graphemes().into_iter().map(WeakStr::new).collect()
+    }
+    fn as_str(&self) -> Option<&str> {
+        Some(&self.0)
+    }
+    fn to_string_lossy(&self) -> std::borrow::Cow<'_, str> {
+        std::borrow::Cow::Borrowed(&self.0)
+    }
+    fn ends_with_newline(&self) -> bool {
+        self.0.ends_with(&['\r', '\n'][..])
+    }
+    fn len(&self) -> usize {
+        self.0.len()
+    }
+    fn slice(&self, rng: Range<usize>) -> &Self {
+        WeakStr::new(&self.0[rng])
+    }
+    fn as_bytes(&self) -> &[u8] {
+        self.0.as_bytes()
     }
 }
